@@ -1,4 +1,5 @@
 import Driver.Json
+import ChipFiring.Model.CertCheck
 import ChipFiring.Model.Algos
 open Lean CF
 namespace Drv
@@ -222,6 +223,28 @@ def opGreedy (j : Json) : M Json := do
       ("certificate", if ok then Json.bool (allF fun v => decide (lapApply G deg s.get v = D.get v) && decide (0 ≤ D.get v)) else Json.null),
       ("again", again),
       ("arg", jVec deg), ("graph", jGraph G)]
+
+/-- witness phase: the orientation the IMPLEMENTATION returned, with positions computed by the
+    harness, checked by the verified certificate checker (`certOK_sound`) -/
+def opCert (j : Json) : M Json := do
+  let n ← getNat j "n"
+  match ← graphOf j n with
+  | .error _ => pure err
+  | .ok G =>
+    match ref? n (← getNat j "q") with
+    | none => pure err
+    | some q =>
+      let D ← vecOf n (← getInts j "D")
+      let pairs ← (← getArr j "orient").toList.mapM fun e => do
+        let t ← e.getArr?
+        pure (← t[0]!.getNat?, ← t[1]!.getNat?)
+      let posL ← getNats j "pos"
+      let posA := posL.toArray
+      let dirM : Vec (Vec Bool n) n := mat fun u => mat fun v => pairs.contains (u.1, v.1)
+      let dir : Fin n → Fin n → Bool := fun u v => (dirM.get u).get v
+      let posV : Vec Nat n := mat fun v => posA.getD v.1 0
+      pure <| Json.mkObj [("ok", Json.bool (certOK G q D dir posV.get)),
+        ("indeg", jVec (indegL G dir))]
 
 /-- is_winnable / EWD asked again on the same graph object after edges were added -/
 def opWinnableHist (j : Json) : M Json := do
